@@ -73,6 +73,17 @@ def orient_post(C):
             ('outward-surface-is-left-as-it-is', QForall(lambda k: z3.Implies(z3.And(tot >= 0, k >= 0, k < nf), same(n, o, o.elem(fl, k))), 1, 'no flip'))]
 
 
+def volume_as_in_C12():
+    """cell::compute_volume as C12 proves it: a sixth of the absolute value of the determinant sum (not called by the current code of
+    check_face_normal_orientation; listed so that a version that does call it is judged against what the function really returns)"""
+    def post(C):
+        o = C.old
+        S = C12.vol_sum(C.e)
+        tot = S(o.len(faces(o, C.this)))
+        return [('a-sixth-of-the-absolute-sum', C.ret == z3.If(tot >= 0, tot, -tot) / 6)]
+    return Contract('cell::compute_volume', PROP, post=post, frame=lambda C: [], assumed=True, name='cell::compute_volume (contract proved in C12)')
+
+
 def orient_lemmas(reg):
     a, b, c = V3.fresh('oa'), V3.fresh('ob'), V3.fresh('oc')
     reg.lemma('swapping-two-nodes-negates-the-determinant', PROP, [], a.dot(c.cross(b)) == -a.dot(b.cross(c)),
@@ -83,10 +94,23 @@ def orient_lemmas(reg):
 # ---- initialize_cell_properties: the gate ---------------------------------------------------------------------------------------------
 def note_call(tag, ret=None):
     def rm(C, st):
-        st.ghost['calls'] = st.ghost.get('calls', ()) + (tag,)
+        # ghost clock: the time of the (last) normal return of each stage; 0 = never returned
+        clk = st.ghost.get('clock', z3.IntVal(0)) + 1
+        st.ghost['clock'] = clk
+        st.ghost['at:' + tag] = clk
         if ret is not None: return ret(C, st)
         return None
     return rm
+
+
+STAGES = ['set_local_ids', 'remove_unused_nodes', 'set_face_owner_cell', 'generate_edge_set', 'is_manifold', 'check_face_normal_orientation',
+          'update_all_face_normals_and_areas', 'compute_area', 'compute_volume', 'initialize_random_properties']
+
+
+def gate_setup(eng, st, args, this):
+    st.ghost['clock'] = z3.IntVal(0)
+    for t in STAGES: st.ghost['at:' + t] = z3.IntVal(0)
+    st.ghost['manifold_answer'] = z3.BoolVal(False)
 
 
 def stage(qn, tag, throws=ANY_STD, ret=None, frame=None):
@@ -118,22 +142,19 @@ def gate_callees():
 
 def gate_post(C):
     g = C.post_state.ghost
-    calls = g.get('calls', ())
     chk = C.val('check_cell_integrity')
+    at = lambda t: g['at:' + t]
     if C.outcome != 'ret':
         return [('only-standard-exceptions-escape', z3.BoolVal(C.outcome.startswith('throw:') and C.e.models.exception_derives(C.outcome[6:], 'std::exception')))]
     def before(a, b):
-        return a in calls and b in calls and calls.index(a) < calls.index(b)
-    ok_order = before('generate_edge_set', 'is_manifold') and before('is_manifold', 'check_face_normal_orientation') and \
-        before('check_face_normal_orientation', 'update_all_face_normals_and_areas') and before('update_all_face_normals_and_areas', 'compute_area') and \
-        before('update_all_face_normals_and_areas', 'compute_volume')
-    ans = g.get('manifold_answer')
-    out = [('with-the-integrity-check-on-a-normal-return-went-through-edge-set-manifold-test-and-orientation-in-this-order', z3.Implies(chk, z3.BoolVal(ok_order)))]
-    if ans is not None:
-        out.append(('normal-return-only-if-the-manifold-test-said-yes', z3.Implies(chk, ans)))
-    else:
-        out.append(('normal-return-only-if-the-manifold-test-said-yes', z3.Not(chk)))
-    return out
+        return z3.And(at(a) >= 1, at(a) < at(b))
+    ok_order = z3.And(before('generate_edge_set', 'is_manifold'), before('is_manifold', 'check_face_normal_orientation'),
+                      before('check_face_normal_orientation', 'update_all_face_normals_and_areas'), before('update_all_face_normals_and_areas', 'compute_area'),
+                      before('update_all_face_normals_and_areas', 'compute_volume'))
+    return [('cover:integrity-check-on', chk), ('cover:integrity-check-off', z3.Not(chk)),
+            ('with-the-integrity-check-on-a-normal-return-went-through-edge-set-manifold-test-and-orientation-in-this-order', z3.Implies(chk, ok_order)),
+            ('normal-return-only-if-the-manifold-test-said-yes', z3.Implies(chk, g['manifold_answer'])),
+            ('areas-and-volume-are-computed-after-the-faces-were-refreshed', z3.And(before('update_all_face_normals_and_areas', 'compute_area'), before('update_all_face_normals_and_areas', 'compute_volume')))]
 
 
 # ---- simulation_initializer::triangulate_surface: attempts and the final answer ---------------------------------------------------------
@@ -179,17 +200,93 @@ def tri_post(C):
 
 def build(reg):
     fn = 'cell::check_face_normal_orientation'
-    reg.default_havoc = {fn, 'simulation_initializer::triangulate_surface'}
+    reg.default_havoc = '*'
     reg.add_loop(LoopContract(fn, 1, orient_inv_sum, modifies=[]))
     reg.add_loop(LoopContract(fn, 2, orient_inv_flip, modifies=['face.n2_id_', 'face.n3_id_']))
-    reg.add(Contract(fn, PROP, pre=orient_pre, post=orient_post, suffix_loop=1, safety={'bounds'}, name=fn + '::<signed volume and flip>'))
+    reg.add(Contract(fn, PROP, pre=orient_pre, post=orient_post, suffix_loop=1, suffix_back=1, safety={'bounds'}, use=[volume_as_in_C12()], name=fn + '::<signed volume and flip>'))
     orient_lemmas(reg)
-    reg.add(Contract('cell::initialize_cell_properties', PROP, post=gate_post, use=gate_callees(), name='cell::initialize_cell_properties(gate)'))
+    reg.add(Contract('cell::initialize_cell_properties', PROP, post=gate_post, use=gate_callees(), setup=gate_setup, name='cell::initialize_cell_properties(gate)'))
     fn2 = 'simulation_initializer::triangulate_surface'
-    reg.add_loop(LoopContract(fn2, 0, tri_inv, modifies=['*']))
+    reg.add_loop(LoopContract(fn2, 0, tri_inv, modifies=['*'], keep_names=['cell_type', 'cell_id']))
     reg.add(Contract(fn2, PROP, pre=tri_pre, post=tri_post, use=tri_callees(), safety={'null-deref'}, name=fn2 + '(attempts)'))
 
 
-EXPLANATION = ""
-ASSUMPTIONS = []
-UNVERIFIED = []
+# ------------------------------------------------------------------------------------------------ native replay
+DRIVER = r'''
+#include "simulation_initializer.hpp"
+#include "epithelial_cell.hpp"
+#include <cstdio>
+#include <cstring>
+#include <fstream>
+#include <unistd.h>
+// mode "open": start-up on a file whose only cell is an open surface (a tetrahedron without its fourth face), initial triangulation off:
+//   must be refused with an exception; if start-up completes, every returned cell must be a closed manifold.
+// mode "inside-out": a tetrahedron given with inward winding goes through cell::initialize_cell_properties(true): afterwards the sum of the
+//   determinants of its faces must be positive (outward orientation).
+static double signed_sum(const cell_ptr& c){
+  double s = 0; for(const face& f: c->get_face_lst()){ if(!f.is_used()) continue; auto [a,b,d] = f.get_node_ids();
+    const vec3& p = c->get_node_lst()[a].pos(); const vec3& q = c->get_node_lst()[b].pos(); const vec3& r = c->get_node_lst()[d].pos(); s += p.dot(q.cross(r)); }
+  return s;
+}
+int main(int argc, char** argv){
+  auto ct = std::make_shared<cell_type_parameters>(); ct->name_ = "epithelial"; ct->global_type_id_ = 0;
+  face_type_parameters ft; ft.name_ = "apical"; ft.face_type_global_id_ = 0; ct->face_types_.push_back(ft);
+  if(!strcmp(argv[1], "open")){
+    char path[] = "/tmp/verif_c13_XXXXXX"; int fd = mkstemp(path); if(fd < 0) return 125; close(fd);
+    { std::ofstream f(path); f << "# vtk DataFile Version 4.2\nvtk output\nASCII\nDATASET UNSTRUCTURED_GRID\nPOINTS 4 float\n0 0 0 1 0 0 0 1 0 \n0 0 1 \n\nCELLS 1 14\n"
+        "13 3 3 0 2 1 3 0 1 3 3 0 3 2 \nCELL_TYPES 1\n42\n\nCELL_DATA 1\nFIELD FieldData 1\ncell_type_id 1 1 int\n0\n"; }
+    global_simulation_parameters sp; sp.input_mesh_path_ = path; sp.output_folder_path_ = "/tmp"; sp.perform_initial_triangulation_ = false;
+    sp.damping_coefficient_ = 1; sp.simulation_duration_ = 1; sp.sampling_period_ = 1; sp.time_step_ = 1; sp.min_edge_len_ = 0.2; sp.contact_cutoff_adhesion_ = 0.01; sp.contact_cutoff_repulsion_ = 0.01;
+    std::vector<cell_type_param_ptr> lst{ct};
+    int rc = 0;
+    try{ simulation_initializer init(sp, lst, false);
+      for(auto& c: init.get_cell_lst()){ if(c == nullptr || !c->is_manifold()){ printf("FAIL start-up handed an open / non-manifold cell to the solver\n"); rc = 1; } }
+      if(!rc) printf("OK completed with closed cells\n"); }
+    catch(const std::exception& e){ printf("OK rejected: %s\n", e.what()); }
+    unlink(path); return rc;
+  }
+  std::vector<double> pos{0,0,0, 1,0,0, 0,1,0, 0,0,1};
+  std::vector<unsigned> faces{0,1,2, 0,3,1, 0,2,3, 1,3,2};      // inward winding
+  auto c = std::make_shared<epithelial_cell>(pos, faces, 0, ct);
+  try{ c->initialize_cell_properties(true); }catch(const std::exception& e){ printf("OK rejected: %s\n", e.what()); return 0; }
+  double s = signed_sum(c);
+  if(!(s > 0)){ printf("FAIL accepted cell is inside out: determinant sum %.17g\n", s); return 1; }
+  printf("OK outward: determinant sum %.17g\n", s); return 0;
+}
+'''
+
+_CACHE = {}
+
+
+def replay(ob, ins, run):
+    import native
+    mode = 'inside-out' if 'check_face_normal_orientation' in (ob.info.get('contract', '') + (ob.info.get('fn') or '')) else 'open'
+    if mode not in _CACHE: _CACHE[mode] = native.run_driver(DRIVER, [mode], sanitize=False, timeout=600)
+    code, out = _CACHE[mode]
+    return {'confirmed': code not in (0, 124, 125), 'exit': code, 'args': [mode], 'output': out[-2500:],
+            'driver': 'specs/C13.py:DRIVER (real simulation_initializer on a generated open tetrahedron / real initialize_cell_properties on an inward-wound tetrahedron)'}
+
+
+def replay_recorded(data):
+    import native
+    args = data.get('native', {}).get('args') or ['open']
+    code, out = native.run_driver(DRIVER, args, sanitize=False, timeout=600)
+    return {'confirmed': code not in (0, 124, 125), 'output': out}
+
+
+EXPLANATION = ("The accept / reject logic around the surface reconstruction. (1) simulation_initializer::triangulate_surface, loop by contract "
+               "(attempt counter 0..9), every stage (reconstruction, cell constructors of the five cell classes, validation) may throw any "
+               "std::exception: the function returns only a non-null cell on which cell::initialize_cell_properties returned normally, and every "
+               "other exit is intialization_exception. (2) cell::initialize_cell_properties with ghost clock over its stages: with the integrity "
+               "check on, a normal return went through generate_edge_set, is_manifold (which answered true) and check_face_normal_orientation in "
+               "this order, and areas / volume are computed after the face caches were refreshed; only std::exception classes escape. (3) Tail of "
+               "check_face_normal_orientation (suffix contract from the signed-volume loop, both loops by contract, partial-sum ghost function as "
+               "in C12): the sign test is made on the sum of the determinants of the used faces and every used face has its second and third "
+               "node exchanged exactly when that sum is negative; lemma: the exchange negates the determinant, so the accepted cell has a "
+               "non-negative sum (outward). Reachability covers for inside-out and outward inputs and for both values of the integrity switch.")
+ASSUMPTIONS = ["stages of the pipeline as callees: return or throw a class derived from std::exception (C17 static fact); is_manifold / compute_area / compute_volume side-effect free",
+               "cell::is_manifold means 'every edge has two faces and V-E+F=2' (its body iterates a std::set<edge>, not under contract here)",
+               "the breadth-first part of check_face_normal_orientation (consistent winding across neighbours) is not under contract: the tail is proved from an arbitrary state",
+               "exact reals"]
+UNVERIFIED = ["the reconstruction itself: initial_triangulation::triangulate_surface, Poisson disk sampling (spacing >= l_min), ball pivoting, hole filling, Delaunay: closedness and faithfulness of the produced mesh (volume, bounding box, node-to-surface distance) are numerical / randomised properties no contract here reaches",
+              "generate_edge_set and is_manifold bodies (std::set<edge>), check_face_winding_order and the traversal that makes the winding consistent"]
